@@ -12,7 +12,7 @@ from gemato.recursiveloader import ManifestRecursiveLoader
 
 from .. import gen_tree as GT
 from ..common import call, mk_result, run_cli, viol, internal_violations
-from ..model import Model, discovery_obstacle
+from ..model import Model, cli_discovers_root_top
 from ..oracles import check_strict_verify, check_cli_agrees, write_violations
 from ..seam import Seam
 from ..world import World, blocking_manifest
@@ -88,7 +88,7 @@ def execute(sc):
                 real_sub = os.path.realpath(os.path.join(w.root, sub)) == os.path.normpath(os.path.join(w.root, sub))
                 if not real_sub:
                     zones['cli-skipped-symlinked-subpath'] = zones.get('cli-skipped-symlinked-subpath', 0) + 1
-                if real_sub and sub and discovery_obstacle(w.root, sub):
+                if real_sub and sub and not cli_discovers_root_top(w.root, sub):
                     zones['cli-skipped-discovery-obstacle'] = zones.get('cli-skipped-discovery-obstacle', 0) + 1
                     real_sub = False
                 if op.get('api') == 'both' and lm is None and real_sub:
